@@ -180,9 +180,11 @@ func c04Cases(tier string, group string) []c04Case {
 				out = append(out, c04Case{xfer: &s, bound: bd, desc: s.String()})
 			}
 			for j := 1; j <= writes+1; j++ {
-				s := b
-				s.failWrite = j
-				out = append(out, c04Case{xfer: &s, bound: 1, desc: s.String()})
+				for _, eof := range []bool{false, true} {
+					s := b
+					s.failWrite, s.fwEOF = j, eof
+					out = append(out, c04Case{xfer: &s, bound: 1, desc: s.String()})
+				}
 			}
 		}
 	}
